@@ -1,7 +1,7 @@
 SPECIFICATION Spec
 CONSTANTS
   NP = 3
-  NG = 3
+  NG = 2
   NJ = 1
   Kinds = {"fifo", "lifo", "prio"}
   MaxSizes = {0, 1, 2}
